@@ -224,7 +224,7 @@ def jobs_c01(tier, seed):
 HANDOVER = 'handover-2rev,handover-3rev,delegated-handover,local-to-delegated,rolledout-handover,handover-cpnone,handover-ifnoctrl'
 ROLLOUT = 'single-2phase,single-3phase,delegated-mixed,sliced,rolledout-delegated,paused-start'
 TEARDOWN = 'rolledout-2phase,rolledout-delegated,rolledout-handover,single-2phase,delegated-mixed,handover-2rev,sliced'
-DEPLOY = 'deploy,deploy-limit1,deploy-limit0,deploy-rolledout'
+DEPLOY = 'deploy,deploy-limit1,deploy-limit0,deploy-rolledout,deploy-limit1-ghost'
 
 
 def replay_jobs(tier):
@@ -328,7 +328,8 @@ CHECKS = {
         ('handover-atomic', HANDOVER, 'handover', 'atomic', 160, 3000, 70)])),
     'C03': dict(level='model_checking', invariants=INV['C03'], assumptions=ASSUME, mc=design_mc(MCINV['C03']), jobs=sched_jobs([
         ('rollout-atomic', ROLLOUT + ',' + HANDOVER, 'rollout', 'atomic', 120, 2000, 70),
-        ('rollout-api', ROLLOUT + ',' + HANDOVER, 'rollout', 'api', 120, 2000, 120)])),
+        ('rollout-api', ROLLOUT + ',' + HANDOVER, 'rollout', 'api', 120, 2000, 120),
+        ('gate-pause-api', 'delegated-mixed,rolledout-delegated,single-3phase,delegated-handover', 'pause', 'api', 100, 2000, 150)])),
     'C04': dict(level='model_checking', invariants=INV['C04'], assumptions=ASSUME, mc=design_mc(MCINV['C04']), jobs=sched_jobs([
         ('teardown-atomic', TEARDOWN, 'teardown', 'atomic', 120, 2000, 70),
         ('teardown-api', TEARDOWN, 'teardown', 'api', 120, 2000, 140)])),
